@@ -121,12 +121,37 @@ def expect_ctor(run, label, thunk, cyclic, validate, inputs):
 def constructor_stream(run, tier, rng):
     bad = []
     n_checked = 0
-    sizes = [1, 2, 3] if tier == 'quick' else [1, 2, 3, 4]
+    # every zero-diagonal 4x4 (quick) / 5x5 sample (thorough) matrix through the validating matrix constructor: the order of the
+    # rows decides which node the deferred validation starts from, so ALL labelled digraphs are needed, not one per shape
+    names4 = ['a', 'b', 'c', 'd']
+    offd = [(i, j) for i in range(4) for j in range(4) if i != j]
+    for mask in range(1 << 12):
+        a = numpy.zeros((4, 4), dtype=int)
+        for k, (i, j) in enumerate(offd):
+            if mask >> k & 1:
+                a[i, j] = 1
+        cyc = not acyclic(names4, matrix_dir_arcs(a, names4))
+        n_checked += 1
+        b = expect_ctor(run, 'CausalGraph.from_adjacency_matrix', lambda: CausalGraph.from_adjacency_matrix(a, list(names4), validate=True), cyc, True,
+                        dict(matrix=a.tolist(), names=names4, validate=True))
+        if b:
+            bad.append(b)
+    names5 = ['a', 'b', 'c', 'd', 'e']
+    for _ in range(1500 if tier == 'quick' else 40000):
+        a = numpy.array([[int(i != j and rng.random() < 0.3) for j in range(5)] for i in range(5)])
+        cyc = not acyclic(names5, matrix_dir_arcs(a, names5))
+        n_checked += 1
+        cls = rng.choice([CausalGraph, TimeSeriesCausalGraph])
+        b = expect_ctor(run, f'{cls.__name__}.from_adjacency_matrix', lambda: cls.from_adjacency_matrix(a, list(names5), validate=True), cyc, True,
+                        dict(matrix=a.tolist(), names=names5, validate=True))
+        if b:
+            bad.append(b)
+    sizes = [1, 2, 3, 4]
     for n in sizes:
         mats = list(all_binary_matrices(n))
-        if n == 4 and len(mats) > 6000:
+        if n == 4:
             rng.shuffle(mats)
-            mats = mats[:6000] if tier == 'thorough' else mats[:300]
+            mats = mats[:6000] if tier == 'thorough' else mats[:250]
         for a in mats:
             names = [chr(ord('a') + i) for i in range(n)]
             arcs = matrix_dir_arcs(a, names)
